@@ -9,49 +9,27 @@
    which offset, and what ObjectStream::new makes of an object stream.  All offsets are relative to
    the header (Reader::read slices the buffer at the first "%PDF-").
    Definitions only. *)
-From LV Require Import Base.Bytes Base.Sx Model.Obj.
+From LV Require Import Base.Bytes Base.Sx Model.Obj Model.Save.
 
-(* ---------- src/xref.rs ---------- *)
-Inductive xentry :=
-| XFree | XUnusable
-| XNormal (off gen : N)
-| XComp (container idx : N).
-
-(* BTreeMap<u32, XrefEntry>: association list kept sorted by key *)
-Definition xtab := list (N * xentry).
-
-Fixpoint xt_get (m : xtab) (id : N) : option xentry :=
-  match m with
-  | [] => None
-  | (k, e) :: m' => if (k =? id)%N then Some e else xt_get m' id
-  end.
-
-(* BTreeMap::insert *)
-Fixpoint xt_insert (m : xtab) (id : N) (e : xentry) : xtab :=
-  match m with
-  | [] => [(id, e)]
-  | (k, e') :: m' =>
-    if (k =? id)%N then (k, e) :: m'
-    else if (id <? k)%N then (id, e) :: (k, e') :: m'
-    else (k, e') :: xt_insert m' id e
-  end.
-
+(* ---------- src/xref.rs ----------
+   XrefEntry (xentry), BTreeMap<u32, XrefEntry> (xmap), get (xget) and insert (xinsert) are shared
+   with the writer side: Model/Save.v. *)
 (* entry(id).or_insert(e) *)
-Definition xt_or_insert (m : xtab) (id : N) (e : xentry) : xtab :=
-  match xt_get m id with Some _ => m | None => xt_insert m id e end.
+Definition xt_or_insert (m : xmap) (id : N) (e : xentry) : xmap :=
+  match xget m id with Some _ => m | None => xinsert m id e end.
 
 Record xref := { xr_stream : bool;      (* cross_reference_type = CrossReferenceStream *)
-                 xr_entries : xtab;
+                 xr_entries : xmap;
                  xr_size : N }.
 
 (* Xref::merge: for (id, entry) in other.entries { self.entries.entry(id).or_insert(entry) } *)
-Definition xt_merge (a b : xtab) : xtab :=
+Definition xt_merge (a b : xmap) : xmap :=
   fold_left (fun m kv => xt_or_insert m (fst kv) (snd kv)) b a.
 Definition xmerge (a b : xref) : xref :=
   {| xr_stream := xr_stream a; xr_entries := xt_merge (xr_entries a) (xr_entries b); xr_size := xr_size a |}.
 
 (* Xref::max_id: the largest key, 0 for an empty table *)
-Definition xt_max_id (m : xtab) : N := fold_left (fun acc kv => N.max acc (fst kv)) m 0%N.
+Definition xt_max_id (m : xmap) : N := fold_left (fun acc kv => N.max acc (fst kv)) m 0%N.
 
 (* ---------- what is written in one cross-reference section ---------- *)
 Inductive rawent :=
@@ -62,15 +40,15 @@ Inductive rawent :=
 (* What the two decoders keep (src/parser/mod.rs `xref`: only `n` lines whose generation fits u16
    are inserted; src/parser_aux.rs decode_xref_stream: type 0 is read and dropped, type 1 and 2 are
    inserted, generation and index `as u16`).  FREE ENTRIES LEAVE NO TRACE in the table. *)
-Definition keep_entry (stream : bool) (m : xtab) (kv : N * rawent) : xtab :=
+Definition keep_entry (stream : bool) (m : xmap) (kv : N * rawent) : xmap :=
   match snd kv with
   | RFree _ => m
   | RNormal off g =>
-    if stream then xt_insert m (fst kv) (XNormal off (g mod 65536))
-    else if (g <? 65536)%N then xt_insert m (fst kv) (XNormal off g) else m
-  | RComp c i => if stream then xt_insert m (fst kv) (XComp c (i mod 65536)) else m
+    if stream then xinsert m (fst kv) (XNormal off (g mod 65536))
+    else if (g <? 65536)%N then xinsert m (fst kv) (XNormal off g) else m
+  | RComp c i => if stream then xinsert m (fst kv) (XCompressed c (i mod 65536)) else m
   end.
-Definition parse_entries (stream : bool) (raw : list (N * rawent)) : xtab :=
+Definition parse_entries (stream : bool) (raw : list (N * rawent)) : xmap :=
   fold_left (keep_entry stream) raw [].
 
 Record section := { s_stream : bool; s_size : N; s_raw : list (N * rawent); s_trailer : dict }.
@@ -111,11 +89,8 @@ Arguments LOk {A} a.
 Arguments LErr {A} e.
 Arguments LOutOfFuel {A}.
 
-Definition K_Prev := Eval cbv in bs "Prev".
 Definition K_XRefStm := Eval cbv in bs "XRefStm".
-Definition K_Encrypt := Eval cbv in bs "Encrypt".
 Definition K_ObjStm := Eval cbv in bs "ObjStm".
-Definition K_Size := Eval cbv in bs "Size".
 
 Definition zmem (p : Z) (l : list Z) : bool := existsb (Z.eqb p) l.
 
@@ -204,7 +179,7 @@ Definition load_entry (L : layout) (encrypted : bool) (acc : objmap * list (oid 
   | _ => acc
   end.
 
-Definition load_objects (L : layout) (encrypted : bool) (t : xtab) : objmap :=
+Definition load_objects (L : layout) (encrypted : bool) (t : xmap) : objmap :=
   let r := fold_left (load_entry L encrypted) t ([], []) in
   (* "Only add entries, but never replace entries" *)
   fold_left (fun m io => or_insert m (fst io) (snd io)) (snd r) (fst r).
